@@ -68,12 +68,15 @@ type Script struct {
 	// {client,server}-streaming (what generic proxies and hand-written registrations do); callers keep using the
 	// method's real shape, and it is the caller's descriptor that says whether one response is expected
 	RegAllBidi bool `json:",omitempty"`
-	// Wrap: the client goes through grpchan.InterceptClientConn with pass-through interceptors ("u" = a unary
+	// Wrap: the client goes through grpchan.InterceptClientConn with interceptors that only stamp the request metadata ("u" = a unary
 	// interceptor only, "s" = a stream interceptor only, "us" = both): a wrapper that changes nothing about a call
 	Wrap string `json:",omitempty"`
 	// OneRecv (single-response streams): the client looks at the trailers right after its one successful receive,
 	// as code using the generated CloseAndRecv does, not only after further receives
 	OneRecv bool `json:",omitempty"`
+	// PreSendHdr: before the scripted call, another unary call is served by the same server whose handler sends its
+	// headers explicitly (grpc.SendHeader); it is none of the scripted call's business
+	PreSendHdr bool `json:",omitempty"`
 }
 
 // chunkedWriter drops Content-Length and flushes the header, so the reply goes out chunked.
@@ -260,6 +263,11 @@ func scriptService(s *Script, o *Obs, mu *sync.Mutex) *Service {
 			}
 		}()
 		md, _ := metadata.FromIncomingContext(ctx)
+		if len(md.Get("zz-pre-sendhdr")) > 0 {
+			// the unrelated earlier call (PreSendHdr)
+			grpc.SendHeader(ctx, metadata.Pairs("zz-pre", "1"))
+			return &pb.Message{}, nil
+		}
 		mu.Lock()
 		o.HandlerRuns++
 		o.InMD = md.Copy()
@@ -369,18 +377,24 @@ func runScriptRepeat(s *Script, name string, copts carrierOpts, n int) []*Obs {
 }
 
 func runScriptOn(s *Script, conn grpc.ClientConnInterface, o *Obs, mu *sync.Mutex) {
+	if s.PreSendHdr {
+		for i := 0; i < 3; i++ { // (a few, so that whatever the server keeps per call has been through it)
+			conn.Invoke(metadata.AppendToOutgoingContext(context.Background(), "zz-pre-sendhdr", "1"), mUnary, &pb.Message{}, new(pb.Message))
+		}
+	}
 	// (the wrapper is part of what is being tested: the reference run goes without it)
 	if s.Wrap != "" && o.Carrier != cGRPC {
 		var ui grpc.UnaryClientInterceptor
 		var si grpc.StreamClientInterceptor
 		if strings.Contains(s.Wrap, "u") {
 			ui = func(ctx context.Context, method string, req, reply interface{}, cc *grpc.ClientConn, invoker grpc.UnaryInvoker, opts ...grpc.CallOption) error {
-				return invoker(ctx, method, req, reply, cc, opts...)
+				// (an interceptor that stamps the request, e.g. with a token or a request id)
+				return invoker(metadata.AppendToOutgoingContext(ctx, "zz-wrap", "u"), method, req, reply, cc, opts...)
 			}
 		}
 		if strings.Contains(s.Wrap, "s") {
 			si = func(ctx context.Context, desc *grpc.StreamDesc, cc *grpc.ClientConn, method string, streamer grpc.Streamer, opts ...grpc.CallOption) (grpc.ClientStream, error) {
-				return streamer(ctx, desc, cc, method, opts...)
+				return streamer(metadata.AppendToOutgoingContext(ctx, "zz-wrap", "s"), desc, cc, method, opts...)
 			}
 		}
 		conn = grpchan.InterceptClientConn(conn, ui, si)
@@ -401,6 +415,15 @@ func runScriptOn(s *Script, conn grpc.ClientConnInterface, o *Obs, mu *sync.Mute
 			kv = append(kv, p.K, string(p.V))
 		}
 		ctx = metadata.AppendToOutgoingContext(ctx, kv...)
+	}
+	if o.Carrier == cGRPC {
+		// the reference run has no wrapper; what the wrapper's interceptor adds is attached directly
+		if s.Kind == kUnary && strings.Contains(s.Wrap, "u") {
+			ctx = metadata.AppendToOutgoingContext(ctx, "zz-wrap", "u")
+		}
+		if s.Kind != kUnary && strings.Contains(s.Wrap, "s") {
+			ctx = metadata.AppendToOutgoingContext(ctx, "zz-wrap", "s")
+		}
 	}
 	o.HdrOpts = make([]metadata.MD, s.NHdrOpts)
 	o.TlrOpts = make([]metadata.MD, s.NTlrOpts)
@@ -577,6 +600,12 @@ func modelScript(s *Script) *Expect {
 		e.Details = append(e.Details, detBytes(d.build()))
 	}
 	e.ReqMD = mergeMD(mergeMD(nil, s.ReqMD.MD()), s.ReqMDMore.MD())
+	if s.Kind == kUnary && strings.Contains(s.Wrap, "u") {
+		e.ReqMD = mergeMD(e.ReqMD, metadata.Pairs("zz-wrap", "u"))
+	}
+	if s.Kind != kUnary && strings.Contains(s.Wrap, "s") {
+		e.ReqMD = mergeMD(e.ReqMD, metadata.Pairs("zz-wrap", "s"))
+	}
 	// what the handler receives
 	n := s.RecvN
 	if !clientStreaming(s.Kind) {
@@ -654,6 +683,11 @@ func pbFromDet(b []byte) string {
 // grpc-status") and a non-nil handler error whose status says OK (reported as success). There
 // the property statement decides alone; the reference is neither sampled nor asked to arbitrate.
 func referenceUsable(s *Script) bool {
+	if len(s.Final.Details) > 0 && sanitizeMsg(string(s.Final.Msg)) != string(s.Final.Msg) {
+		// grpc-go itself cannot encode error details next to a status message that is not valid UTF-8; the model
+		// (code and details as returned, message with the replacement character) stands on the property's own words
+		return false
+	}
 	return !(s.Final.Kind == "ok-status-error" || (s.Final.Kind == "status" && s.Final.Code > 1<<31-1))
 }
 
